@@ -1,4 +1,5 @@
 import Unimock.Lemmas.Builder
+import Unimock.Lemmas.History
 import Unimock.Lemmas.BinSearch
 import Unimock.Lemmas.State
 /-!
@@ -199,5 +200,22 @@ example :
       ⟨.ret 3 false, .nTimes 2, false⟩, ⟨.ret 4 false, .unquantified, false⟩]
     (List.range 4).map (fun c => findResponderIdx (buildChain b true segs).responders c) =
       [some 2, some 2, some 3, some 3] := by decide
+
+/-! ## the k-th match along a history -/
+
+/-- **C02, the k-th match of a pattern along any history.** Start from a mock whose counters are 0 and make any
+    history of calls (through the original or clones: they share this state), whatever their outcomes. If the next
+    call is matched by pattern `pi` of its method, its outcome is that pattern's response chain asked at index
+    `k - 1`, where `k - 1` is the number of earlier calls of the history matched by that same pattern — the position is
+    counted per pattern, over everything that happened before, and nothing else influences which response comes. -/
+theorem C02_history_kth_match (s0 : Shared α ρ) (h0 : ∀ id pi, s0.countOf id pi = 0)
+    (calls : List (MethodInfo × α)) (m : MethodInfo) (a : α) (pi : Nat)
+    (hsel : selected (runCalls s0 calls) m a = some pi) :
+    ∃ p, (runCalls s0 calls).pat? m.id pi = some p ∧
+      (evalCall (runCalls s0 calls) m a).2 = (respond m pi p.responders (matchCount m.id pi s0 calls)).2 := by
+  obtain ⟨p, hp, hout⟩ := evalCall_outcome_of_selected (runCalls s0 calls) m a pi hsel
+  refine ⟨p, hp, ?_⟩
+  rw [hout, runCalls_countOf, h0]
+  simp
 
 end Unimock
